@@ -200,6 +200,10 @@ def r3_layout(ctx: Context) -> None:
     gen = pc.args[0] if pc.args else None
     if not isinstance(gen, (ast.GeneratorExp, ast.ListComp)) or len(gen.generators) != 1:
         raise AnalysisError(f"{f.loc(pc)}: the parallel dispatch is not a single comprehension over the replicated parameters; cannot decide R3")
+    rebound = [x for x in walk_scope(f.node) if isinstance(x, (ast.Assign, ast.AugAssign, ast.AnnAssign)) and any(
+        isinstance(t, ast.Name) and t.id == p for t in ast.walk(x.targets[0] if isinstance(x, ast.Assign) else x.target))]
+    ctx.check(not rebound, "R3.model-call", "Calibrator.simulate_model:params-not-rebound", "the model is run on exactly the vectors that are recorded (the argument is not transformed)",
+              f"`{src(rebound[0])[:80] if rebound else ''}` transforms the parameter array inside simulate_model: the model runs on other vectors than the ones calibrate() records", f, rebound[0] if rebound else None)
     it = gen.generators[0].iter
     tgt = gen.generators[0].target
     it_n = str(n.rat(it))
